@@ -149,7 +149,7 @@ static bool gvt_thread_phase_run(void)
 /**
  * @fn gvt_phase_run(void)
  * @brief Executes a step of the GVT algorithm
- * @return the latest GVT value or 0.0 if the algorithm must still complete
+ * @return the latest GVT value or a negative value if the algorithm must still complete
  *
  * This function must be called several times by all the processing threads
  * hosted in the nodes involved in the simulation before completing and
@@ -261,7 +261,7 @@ simtime_t gvt_phase_run(void)
 {
 	VERIF_YIELD(VP_GVT_PHASE);
 	if(unlikely(thread_phase))
-		return gvt_node_phase_run() ? *reducing_p : 0.0;
+		return gvt_node_phase_run() ? *reducing_p : -1.0;
 
 	if(unlikely(atomic_load_explicit(&c_b, memory_order_relaxed)))
 		gvt_start_processing();
@@ -276,7 +276,7 @@ simtime_t gvt_phase_run(void)
 		}
 	}
 
-	return 0.0;
+	return -1.0;
 }
 
 void gvt_msg_drain(void)
@@ -294,7 +294,7 @@ void gvt_msg_drain(void)
 	for(int i = 0; i < 2; ++i) { // flush both gvt phases
 		VERIF_TRACE(VK_DRAIN_STAGE, 4 + i, 0, 0);
 		gvt_timer = 0;       // this satisfies the timer condition
-		while(!gvt_phase_run())
+		while(gvt_phase_run() < 0)
 			mpi_remote_msg_drain();
 	}
 	VERIF_TRACE(VK_DRAIN_STAGE, 6, 0, 0);
